@@ -27,10 +27,9 @@ Definition no_live_below (m : cmap) : bool :=
 Definition no_entry_below (m : cmap) : bool :=
   forallb (fun kv => negb (covered m (fst kv))) m.
 
-(* a change does not delete a path and write (or delete) something beneath it: the excluded overlap is the open
-   finding F-14-C03 *)
-Definition wf_change (ch : cmap) : bool :=
-  wfk ch && forallb (fun kv => negb (covered ch (fst kv))) ch.
+(* a change does not delete a path and UPDATE something beneath it: the excluded overlap is the open finding F-14-C03.
+   (A delete beneath a delete is allowed: the rollback of a value re-created beneath a tombstone is such a change.) *)
+Definition wf_change (ch : cmap) : bool := wfk ch && no_live_below ch.
 
 (* store() skips a path whose stored value carries the same index as the value to be written: a stored value and a
    change value of the same index must say the same (deleted flag; value when live) *)
